@@ -12,6 +12,11 @@
 //   apply <key> <nonce> <ctr> <input>       -> ChaCha20::apply into a fresh vector
 //   applyinto <key> <nonce> <ctr> <input> <old> -> ChaCha20::apply into a vector already holding <old>
 //   twice <key> <nonce> <ctr> <input>       -> apply(apply(input))
+//   applyinplace <key> <nonce> <ctr> <buf>  -> apply(key, nonce, span(buf), buf, ctr): input span and output vector are the same storage
+//   inplacetwice <key> <nonce> <ctr> <buf>  -> the same, twice
+//   applyalias-longer <key> <nonce> <ctr> <vec> <n>  -> input = span over the first n <= |vec| bytes of the output vector: the vector afterwards
+//   applyalias-shorter <key> <nonce> <ctr> <vec> <n> -> n > |vec|, span over reserved capacity (no reallocation): `<size>:<first |vec| bytes>`
+//                                               (the bytes beyond the old size were not live input; only the determined part is printed)
 //   ctr <id>                                -> derive_counter(id), decimal
 //   mgr_enc <key> <id> <pt>                 -> CryptoManager::encrypt_with_key: `<nonce> <data> enc=<flag>`
 //   mgr_dec <key> <id> <nonce> <ct>         -> CryptoManager::decrypt_with_key: `<pt>` | `nullopt`
@@ -31,7 +36,9 @@
 #include "src/crypto/ChaCha20.cpp"
 #include "src/crypto/CryptoManager.cpp"
 
+#include <algorithm>
 #include <cstdint>
+#include <span>
 #include <string>
 #include <unistd.h>
 #include <vector>
@@ -125,6 +132,28 @@ int main(int argc, char** argv) {
             Bytes out = bytes_arg(t[5]);
             ChaCha20::apply(key_arg(t[1]), nonce_arg(t[2]), in, out, u32_arg(t[3]));
             return canon(out);
+        }
+        if ((t[0] == "applyinplace" || t[0] == "inplacetwice") && t.size() == 5) {
+            Bytes buf = bytes_arg(t[4]);
+            const auto key = key_arg(t[1]);
+            const auto nonce = nonce_arg(t[2]);
+            const auto ctr = u32_arg(t[3]);
+            for (int round = 0; round < (t[0] == "inplacetwice" ? 2 : 1); ++round) {
+                ChaCha20::apply(key, nonce, std::span<const std::uint8_t>(buf.data(), buf.size()), buf, ctr);
+            }
+            return canon(buf);
+        }
+        if ((t[0] == "applyalias-longer" || t[0] == "applyalias-shorter") && t.size() == 6) {
+            Bytes vec = bytes_arg(t[4]);
+            const std::size_t m = vec.size();
+            const std::size_t n = std::stoull(t[5]);
+            const bool longer = t[0] == "applyalias-longer";
+            if (longer ? n > m : n <= m) throw std::invalid_argument("n");
+            vec.reserve(std::max(n, m) + 1);   // resize(n) must not reallocate: the span stays valid
+            ChaCha20::apply(key_arg(t[1]), nonce_arg(t[2]), std::span<const std::uint8_t>(vec.data(), n), vec, u32_arg(t[3]));
+            if (longer) return canon(vec);
+            Bytes head(vec.begin(), vec.begin() + static_cast<std::ptrdiff_t>(std::min(m, vec.size())));
+            return std::to_string(vec.size()) + ":" + canon(head);
         }
         if (t[0] == "twice" && t.size() == 5) {
             const auto in = bytes_arg(t[4]);
